@@ -32,7 +32,6 @@ Proof.
   all: unfold s_items; destruct (sh_loc h) as [items cap def used|p] eqn:El.
   1,3: destruct (cap <? t_size t); [discriminate|]; destruct (cap <? used + t_size t); [discriminate|];
        intros H; injection H as <- <-; split; auto; eexists; split; reflexivity.
-  all: destruct (match sh_cap h with Some cp => cp <? t_size t | None => false end); [discriminate|].
   all: intros H; injection H as <- <-; cbn [s_h s_fs sh_loc].
   all: unfold slookup, supd; destruct (alookup path_eqb p (s_fs s)) as [st|] eqn:L; cbn [ss_items app length];
        (split; [reflexivity|]); exists h; (split; [reflexivity|]); rewrite El;
@@ -46,8 +45,7 @@ Proof.
   destruct (sh_mode h); [now intros H; injection H as <-| |].
   all: destruct (acceptable (s_def s h) t); [|now intros H; injection H as <-].
   all: destruct (sh_loc h) as [items cap def used|p];
-       [destruct (cap <? t_size t); [|destruct (cap <? used + t_size t)]
-       |destruct (match sh_cap h with Some cp => cp <? t_size t | None => false end)]; intros H;
+       [destruct (cap <? t_size t); [|destruct (cap <? used + t_size t)]|]; intros H;
        try discriminate; now injection H as <-.
 Qed.
 
@@ -98,14 +96,14 @@ Qed.
 Theorem add_error_noop w t w' e : step fixed_cfg w (Add t) = (w', OErr e) -> w' = w.
 Proof.
   destruct w as [fs [h|]]; cbn [step w_h w_fs]; [|now intros H; injection H as <-].
-  unfold add. cbn [fix_C10a fix_F6 fixed_cfg].
+  unfold add. cbn [fix_C10a fix_F6 fix_C07b fixed_cfg].
   destruct (h_mode h); [now intros H; injection H as <-| |].
   all: destruct (match store_sig fs h with Some s => true && negb (s =? t_sig t)%Z | None => false end);
        [now intros H; injection H as <-|].
   all: destruct (match h_indexable h with Some b => negb (Bool.eqb b (has_id t)) | None => false end);
        [now intros H; injection H as <-|].
   all: destruct (t_kind t); [|now intros H; injection H as <-].
-  all: destruct (match cache_cap h with Some cp => cp <? t_size t | None => false end);
+  all: destruct (match h_src h with SrcMem cap => cap <? t_size t | _ => false end);
        [now intros H; injection H as <-|].
   all: destruct (match h_src h with SrcMem cap => cap <? h_used h + t_size t | _ => false end);
        [now intros H; injection H as <-|].
@@ -133,7 +131,7 @@ Proof.
   assert (Mr : h_mode h <> MRead).
   { unfold hinv in Hi. rewrite Es in Hi. destruct Hi as (-> & _). discriminate. }
   destruct (add_eq fs h t Hi Mr) as [(A' & _)|(_ & Ea)]; [congruence|].
-  cbn [step w_h w_fs]. rewrite Ea. unfold is_full, too_large, cache_cap. rewrite Es.
+  cbn [step w_h w_fs]. rewrite Ea. unfold is_full, too_large. rewrite Es.
   assert (E1 : (cap <? t_size t) = false) by (apply Nat.ltb_ge; lia).
   assert (E2 : (cap <? h_used h + t_size t) = true) by (apply Nat.ltb_lt; lia). now rewrite E1, E2.
 Qed.
@@ -180,7 +178,9 @@ Definition TBad (k : Z) (i : option Z) := mkTraj k i 0 TMissingReq 1.
 Definition TSig (k : Z) (i : option Z) := mkTraj k i 1 TOk 1.
 Definition TBig (k : Z) (sz : nat) := mkTraj k None 0 TOk sz.
 
-Definition only (f5 f6 f7 f8 c08a c09a c10a : bool) := mkCfg f5 f6 f7 f8 c08a c09a c10a.
+Definition only (f5 f6 f7 f8 c08a c09a c10a : bool) := mkCfg f5 f6 f7 f8 c08a c09a c10a true true.
+Definition cfg_C07a := mkCfg true true true true true true true false true.
+Definition cfg_C07b := mkCfg true true true true true true true true false.
 Definition cfg_F5 := only false true true true true true true.
 Definition cfg_F6 := only true false true true true true true.
 Definition cfg_F7 := only true true false true true true true.
@@ -213,8 +213,8 @@ Lemma rejected_add_refuted :
 Proof. vm_compute. repeat split; congruence. Qed.
 
 Definition fs_two : fsys :=
-  [(P0, NFile (mkNc [mkItem 0 (Some 7%Z) true] 0 true [(7%Z, 0%nat)]));
-   (P1, NFile (mkNc [mkItem 1 None true; mkItem 2 None true] 0 false []))].
+  [(P0, NFile (mkNc [mkItem 0 (Some 7%Z) true 1] 0 true [(7%Z, 0%nat)]));
+   (P1, NFile (mkNc [mkItem 1 None true 1; mkItem 2 None true 1] 0 false []))].
 
 Lemma refused_merge_leaves_dir_refuted :
   exists fs', merge_run cfg_F7 fs_two OUT [P0; P1] None = (fs', OErr EIdMix) /\
@@ -244,8 +244,8 @@ Lemma append_mixed_ids_refuted :
 Proof. vm_compute. repeat split. eexists. split; reflexivity. Qed.
 
 Definition fs_dup : fsys :=
-  [(P0, NFile (mkNc [mkItem 0 None true; mkItem 1 None true] 0 false []));
-   (Q0, NFile (mkNc [mkItem 2 None true; mkItem 3 None true; mkItem 4 None true] 0 false []))].
+  [(P0, NFile (mkNc [mkItem 0 None true 1; mkItem 1 None true 1] 0 false []));
+   (Q0, NFile (mkNc [mkItem 2 None true 1; mkItem 3 None true 1; mkItem 4 None true 1] 0 false []))].
 
 Lemma merge_same_name_loses_data_refuted :
   snd (merge_run cfg_C09a fs_dup OUT [P0; Q0] None) = OUnit /\
@@ -319,9 +319,9 @@ Lemma hist_demo_outputs :
 Proof. vm_compute. reflexivity. Qed.
 
 Definition fs_three : fsys :=
-  [(P0, NFile (mkNc [mkItem 0 (Some 30%Z) true] 0 true (mk_table [mkItem 0 (Some 30%Z) true])));
-   (P1, NFile (mkNc [mkItem 1 (Some 10%Z) true; mkItem 2 (Some 50%Z) true] 0 true
-                    (mk_table [mkItem 1 (Some 10%Z) true; mkItem 2 (Some 50%Z) true])))].
+  [(P0, NFile (mkNc [mkItem 0 (Some 30%Z) true 1] 0 true (mk_table [mkItem 0 (Some 30%Z) true 1])));
+   (P1, NFile (mkNc [mkItem 1 (Some 10%Z) true 1; mkItem 2 (Some 50%Z) true 1] 0 true
+                    (mk_table [mkItem 1 (Some 10%Z) true 1; mkItem 2 (Some 50%Z) true 1])))].
 
 Lemma merge_demo :
   snd (merge_run fixed_cfg fs_three OUT [P0; P1] None) = OUnit /\
@@ -349,8 +349,8 @@ Lemma hist_sizes_outputs :
   hist_ok (abs empty_world) hist_sizes /\
   snd (run fixed_cfg empty_world hist_sizes) =
   [OUnit; OIdx 0; OIdx 1; OErr EFull; OErr ETooLarge; OIdx 2; OLen 3; OItem 4; OErr EIndex; OUnit;
-   OUnit; OIdx 0; OErr ETooLarge; OIdx 1; OLen 2; OUnit; OItem 5; OErr EIndex; OUnit;
-   OUnit; OLen 2; OItems [5; 7]%Z None; OUnit] /\
+   OUnit; OIdx 0; OIdx 1; OIdx 2; OLen 3; OUnit; OItem 5; OItem 7; OUnit;
+   OUnit; OLen 3; OItems [5; 6; 7]%Z None; OUnit] /\
   snd (spec_run (abs empty_world) hist_sizes) = snd (run fixed_cfg empty_world hist_sizes).
 Proof. split; [apply hist_okb_sound; vm_compute; reflexivity|]. vm_compute. split; reflexivity. Qed.
 
@@ -407,3 +407,33 @@ Lemma hist_iters_outputs :
    OUnit; OItem 0; OUnit; OItem 0; OIdx 3; OUnit; OItem 2; OItem 3; OStop; OUnit] /\
   snd (spec_run (abs empty_world) hist_iters) = snd (run fixed_cfg empty_world hist_iters).
 Proof. split; [apply hist_okb_sound; vm_compute; reflexivity|]. vm_compute. split; reflexivity. Qed.
+
+(* ------------------------------------------------------------------------------------------- *)
+(* FC07a / FC07b: a cache smaller than one trajectory                                           *)
+(* ------------------------------------------------------------------------------------------- *)
+(* a store written with an unbounded cache (sizes 2, 9, 3), reopened with a cache of 5: as found, the item of size 9
+   cannot be read ("value too large") and iteration stops there; repaired, every read is the list's *)
+Definition hist_C07a : list op :=
+  [Create P0 None; Add (TBig 5 2); Add (TBig 6 9); Add (TBig 7 3); Close;
+   OpenR P0 (Some 5); Get 0; Get 1; Get 2; Iter []; Close].
+
+Lemma oversized_read_refuted :
+  snd (run cfg_C07a empty_world hist_C07a)
+  = [OUnit; OIdx 0; OIdx 1; OIdx 2; OUnit; OUnit; OItem 5; OErr ETooLarge; OItem 7; OItems [5]%Z (Some ETooLarge); OUnit] /\
+  snd (run fixed_cfg empty_world hist_C07a)
+  = [OUnit; OIdx 0; OIdx 1; OIdx 2; OUnit; OUnit; OItem 5; OItem 6; OItem 7; OItems [5; 6; 7]%Z None; OUnit] /\
+  snd (spec_run (abs empty_world) hist_C07a) = snd (run fixed_cfg empty_world hist_C07a).
+Proof. vm_compute. repeat split. Qed.
+
+(* a file-backed store with a cache of 5: as found the trajectory of size 9 is refused although the store keeps its
+   trajectories in the file; repaired it is written (and simply not cached) *)
+Definition hist_C07b : list op :=
+  [Create P0 (Some 5); Add (TBig 5 2); Add (TBig 6 9); Add (TBig 7 3); Len; Get 1; Close; OpenR P0 None; Iter []; Close].
+
+Lemma oversized_add_refuted :
+  snd (run cfg_C07b empty_world hist_C07b)
+  = [OUnit; OIdx 0; OErr ETooLarge; OIdx 1; OLen 2; OItem 7; OUnit; OUnit; OItems [5; 7]%Z None; OUnit] /\
+  snd (run fixed_cfg empty_world hist_C07b)
+  = [OUnit; OIdx 0; OIdx 1; OIdx 2; OLen 3; OItem 6; OUnit; OUnit; OItems [5; 6; 7]%Z None; OUnit] /\
+  snd (spec_run (abs empty_world) hist_C07b) = snd (run fixed_cfg empty_world hist_C07b).
+Proof. vm_compute. repeat split. Qed.
